@@ -46,7 +46,7 @@ PROPS = {
                  probe_every=2, bad_key_pct=10),
             "C04", ["C04", "HOLDS"], (300, 6000)),
     "C07": (prof(weights={"try": 20, "lock": 8, "unl": 24, "ren": 16, "adv": 8, "probe": 0, "restart": 1, "ipcu": 3},
-                 names=[H("a"), H("ab"), H("b"), H("abc"), H("a:"), H("1:a")],
+                 names=[H("a"), H("ab"), H("b"), H("abc"), H("a:"), H("1:a"), H("a "), H(" a")],
                  sizes=[None, None, 1, 2, 0, -1, 3], lts=[None, 0, 1, 5, -1], wts=[None, 0, 1, -1],
                  probe_every=0, probe_around=True, bad_key_pct=45, no_sess_pct=4),
             "C07", ["C07", "HOLDS"], (300, 6000)),
@@ -57,7 +57,7 @@ PROPS = {
                  dlt=[3000000000, 1000000000, 2000000000, 600000000000, 0, 500000000, 1500000000, 999999999], min_len=10, max_len=36),
             "C10", ["C10", "HOLDS", "C04", "C08", "C01"], (300, 6000)),
     "C12": (prof(weights={"try": 30, "lock": 14, "ren": 12, "unl": 8, "adv": 6, "restart": 1},
-                 names=[H("a"), H("ab"), H("b"), "", H("a"), H("x" * 300), "c3a9e4b8ad"],
+                 names=[H("a"), H("ab"), H("b"), "", H("a"), H("x" * 300), "c3a9e4b8ad", H(" a"), H("a "), H(" "), H("a\t")],
                  sizes=[None, None, 1, 2, 3, 0, -1, -2147483648, 2147483647, 2],
                  lts=[None, None, 0, 1, 5, -1, -2147483648, 2147483647], wts=[None, 0, 1, 2, -1, -2147483648],
                  renew_lts=[1, 5, 0, -1, -2147483648, 2147483647], no_sess_pct=8, probe_every=4,
@@ -68,6 +68,7 @@ PROPS = {
             "C18", ["C18", "HOLDS"], (300, 6000)),
     # sequential parts of the interleaving properties
     "C01": (prof(weights={"try": 30, "lock": 14, "unl": 16, "disc": 6, "adv": 14, "restart": 3}, probe_every=1,
+                 names=[H("a"), H("ab"), H("b"), H(" a"), H("a "), H("a\n"), H("A")],
                  gc=[[2000000000, 1000000000], [1000000000, 0], [200000000, 0]]),
             "C01", ["C01", "HOLDS"], (250, 5000)),
     "C02": (prof(weights={"try": 30, "lock": 12, "unl": 26, "adv": 6, "cancel": 6}, lts=[None], probe_every=2, bad_key_pct=25),
